@@ -6,6 +6,7 @@ CLASS = 'C'
 CRATE = 'vibesql-storage'
 MODULE = 'verif_kani_persist'
 UNWIND = 4
+HARNESS_FILE = 'kani/storage/persist.rs'
 DOC = 'read_sql_value(write_sql_value(v)) == v bitwise with exact consumption for every scalar tag; TypeTag inverse on all 256 codes; header round trip; readers total on truncated/arbitrary bytes'
 _F = 'crates/vibesql-storage/src/persistence/binary/'
 FUNCTIONS = [
